@@ -40,7 +40,7 @@ TEXT = {
         "note": ACT_NOTE + " 'At least once' is C04's liveness. 'Only the closure is loaded' is C09 (CFG unit).",
     },
     "C09": {
-        "level": "Proof, for every configuration and request: try_into_domain_targets returns Ok(m) only if every root is a key of m, every dependency (declared or implied by X.output) of every key is a key (closedness), m is keyed by each target's own id, every X.output producer is a build target; a missing project or target gives Err; a target that is its own ancestor gives Err; cleaning and the engine receive only the resolved map (the main block is outlined with the resolved map as its only view of the configuration). The resolver terminates on every graph, cyclic or not (decreases measure: yaml targets not yet taken out of the configuration; Verus proves every recursive call strictly decreases it). Not proved: that every key is reachable from a root.",
+        "level": "Proof, for every configuration and request: try_into_domain_targets returns Ok(m) only if every root is a key of m, every dependency (declared or implied by X.output) of every key is a key (closedness), m is keyed by each target's own id, every X.output producer is a build target; a missing project or target gives Err; a target that is its own ancestor gives Err; cleaning and the engine receive only the resolved map (the main block is outlined with the resolved map as its only view of the configuration). The resolver terminates on every graph, cyclic or not (decreases measure: yaml targets not yet taken out of the configuration; Verus proves every recursive call strictly decreases it). Conversely the map holds nothing else: every key is reachable from a requested root through dependencies of resolved targets (declared or X.output), and a recursive call never adds a target of its own ancestor chain.",
         "note": "Assumed: transform_target's contract (id, parsed dependency lists, producers of X.output inputs; A-yaml), derived Hash/Eq/Clone, vstd std specs + get_mut/remove_entry, slice contains/concat stubs (A-std, A-all).",
     },
     "C10": {
@@ -57,7 +57,7 @@ TEXT = {
     },
     "C13": {
         "level": "Proof for the resolver half: every X.output producer is appended to the consumer's dependencies (so it is built first: C01), is a build target, and the consumer's input files and commands become exactly its own followed by each producer's output resources in order, taken from the resolved producer (whose paths and command directories are already bound to its own project); Resources::extend keeps order and drops nothing. Decision half: C02/C03 obligations quantify over arbitrary resource lists, so they cover inherited ones; the command key distinguishes directory and text; get_cmd_stdout runs in the resource's own directory.",
-        "note": "Assumed: transform_target (paths joined to the declaring project's directory), A-fs, A-cmd, A-codec, A-all.",
+        "note": "transform_target / transform_input / transform_output and their closures are under contract (every declared path is joined to the declaring project's directory, every command resource carries that directory). Assumed: Path::join as an uninterpreted function, the fold/try_fold/map-collect adapters (A-all), A-fs, A-cmd, A-codec.",
     },
     "C14": {
         "level": "Proof of the uniqueness/determinism half only: yaml::Config::load returns Ok only if no two loaded projects carry the same name; an import is accepted only if the imported project has a name equal to the import key; the name-keyed project map built from the loaded projects maps every project's name to a loaded project of that name. Totality and strictness of parsing are not applicable (third-party parser, no contract in reach).",
